@@ -661,7 +661,7 @@ Section Progress.
           split; [unfold W in *; rewrite U3, V3; apply T1; exact Hw|]. rewrite U3, V3, T13. intro X. destruct (Hf X) as (Fbs & Phs & Pgs & Pts).
           destruct Fbs as (F1 & F2 & F3 & F4 & F5 & F6 & F7). destruct (F3 Ea Ep) as (F31 & F32).
           assert (Heof : reof (re s2) = true).
-          { destruct (ptyp (pa s) =? 0) eqn:Z; clear Z. destruct (ptyp (pa s)) eqn:Et.
+          { destruct (ptyp (pa s)) eqn:Et.
             - destruct (F32 ltac:(congruence)) as (F33 & _). destruct (R1 eq_refl F33) as [(_ & X1)|(X1 & _)]; [exact X1|congruence].
             - unfold payload_feed_eof in Ef. rewrite Et in Ef. discriminate Ef.
             - destruct (F32 ltac:(congruence)) as (F33 & _). destruct (R1 eq_refl F33) as [(_ & X1)|(X1 & _)]; [exact X1|congruence]. }
@@ -683,5 +683,72 @@ Section Progress.
       destruct Fbs as (F1 & F2 & F3 & F4 & F5 & F6 & F7).
       unfold Fb, Ph, Pg, Pt, nonempty, shape in *. rewrite ?U1, ?U2, ?U3. cbn.
       apply andb_false_iff in Eap. destruct (connected (pr s)) eqn:Ec; destruct (parser_alive (pr s)) eqn:Ea; destruct (pp_present (pr s)) eqn:Ep; fin2.
+  Qed.
+
+  (* BaseProtocol.resume_reading *)
+  Lemma resume_F f s :
+    W s -> (rexn (re s) = None -> Fb s) -> Inv (resume_reading H hnew hstep havail heof hflush f s).
+  Proof.
+    intros Hw Hf. unfold resume_reading. cbv zeta.
+    match goal with |- context [parser_feed H hnew hstep havail heof hflush f ?t []] => set (s1 := t) end.
+    assert (H1 : W s1 /\ (rexn (re s1) = None -> Fb s1) /\ Pg s1 /\ rpaused (pr s1) = false).
+    { subst s1. match goal with |- context [pr_set H s ?g] => destruct (pr_set_proj s g) as (U1 & U2 & U3 & U4) end.
+      split; [unfold W in *; rewrite U3; exact Hw|]. split; [|split; [unfold Pg; rewrite U1; cbn; intro X; discriminate X|rewrite U1; reflexivity]].
+      rewrite U3. intro X. specialize (Hf X). unfold Fb, shape, nonempty in *. rewrite ?U1, ?U2, ?U3. cbn. exact Hf. }
+    clearbody s1. destruct H1 as (Hw1 & Hf1 & Hg1 & Hr1).
+    destruct (parser_feed_F f s1 [] Hw1 Hf1) as (Hw2 & Hf2 & _ & _). cbv zeta in *.
+    set (s2 := parser_feed H hnew hstep havail heof hflush f s1 []) in *. clearbody s2.
+    destruct (negb (rpaused (pr s2)) && connected (pr s2)) eqn:Er.
+    - apply andb_true_iff in Er as [Er1 Er2]. apply negb_true_iff in Er1.
+      match goal with |- context [pr_set H s2 ?g] => destruct (pr_set_proj s2 g) as (U1 & U2 & U3 & U4); set (s' := pr_set H s2 g) in * end. clearbody s'.
+      split; [unfold W in *; rewrite U3; exact Hw2|]. rewrite U3. intro X. destruct (Hf2 X) as (Fbs & Phs & G & T).
+      unfold Fb, Ph, Pg, Pt, nonempty, shape in *. rewrite ?U1, ?U2, ?U3. cbn. fin2.
+    - split; [exact Hw2|]. intro X. destruct (Hf2 X) as (Fbs & Phs & G & T). split; [exact Fbs|]. split; [exact Phs|]. split; [auto|].
+      unfold Pt. intros Hc Ht. rewrite Hc in Er. rewrite andb_true_r in Er. apply negb_false_iff in Er. exact Er.
+  Qed.
+
+  (* _read_nowait_chunk keeps the reader well formed *)
+  Lemma Wr_take blk0 rest rs lo hi lc hc eo ex tt cu sp w dl (data : bytes) buf' w' dl' :
+    Wr (mkRd (blk0 :: rest) rs lo hi lc hc eo ex tt cu sp w dl) ->
+    lenN data + lenN (concat buf') = lenN (concat (blk0 :: rest)) ->
+    Wr (mkRd buf' (rs - lenN data) lo hi lc hc eo ex tt (cu + lenN data)
+             (match sp with Some l => Some (drop_stale l (cu + lenN data)) | None => None end) w' dl').
+  Proof.
+    unfold Wr; cbn [rsize buf total cursor splits low lowc highc]. intros (A & B & C & D) Hl. repeat split; try tauto; try lia.
+    destruct sp as [l|]; [|exact I]. eapply drop_stale_incr; eauto.
+  Qed.
+
+  Lemma rd_take_F f s n s' dd : Inv s -> rd_take H hnew hstep havail heof hflush f s n = (s', dd) -> Inv s'.
+  Proof.
+    intros Hi. unfold rd_take. destruct (buf (re s)) as [|blk0 rest] eqn:Eb; [intros [= <- <-]; exact Hi|].
+    match goal with |- (let '(data, buf') := ?x in _) = _ -> _ => destruct x as [data buf'] eqn:Ex end.
+    assert (Hlen : lenN data + lenN (concat buf') = lenN (concat (blk0 :: rest))).
+    { cbn [concat]. rewrite lenN_app. destruct n as [k|].
+      - destruct (k <? lenN blk0) eqn:Ek; inversion Ex; subst; cbn [concat]; rewrite ?lenN_app; [pose proof (take_drop_len k blk0); lia|lia].
+      - inversion Ex; subst. lia. }
+    cbv zeta.
+    match goal with |- context [set_re H s ?r] => set (r1 := r) end.
+    set (s1 := set_re H s r1).
+    destruct Hi as (Hw & Hf).
+    assert (I1 : W s1 /\ (rexn (re s1) = None -> Fb s1 /\ Pt s1 /\ (buf' <> [] -> Ph s1 /\ Pg s1)) /\
+                 re s1 = r1 /\ rexn r1 = rexn (re s)).
+    { subst s1 r1. clear Ex. bust s. cbn in Eb. subst bf. unfold set_re. cbn.
+      split; [unfold W in *; cbn in *; apply Wr_take; assumption|]. split; [|split; reflexivity].
+      intro X. destruct (Hf X) as (Fbs & Phs & Pgs & Pts). unfold Fb, Ph, Pg, Pt, nonempty, shape in *. cbn in *. fin2. }
+    destruct I1 as (Hw1 & Hf1 & Hre & Hrx).
+    match goal with |- ((if ?x then _ else _), _) = _ -> _ => destruct x eqn:Ec end; intros [= <- <-].
+    - apply resume_F; [exact Hw1|]. intro X. destruct (Hf1 X) as (A & _). exact A.
+    - split; [exact Hw1|]. intro X. destruct (Hf1 X) as (A & B & C).
+      assert (Hne : buf' <> []).
+      { intro Hn. unfold W in Hw1. rewrite Hre in Hw1. subst r1. cbn in Ec.
+        pose proof Hw1 as (W1 & W2 & W3 & W4 & W5 & W6). cbn in W1, W4, W5.
+        rewrite Hn in W1. cbn in W1.
+        destruct (splits (re s)) as [l|] eqn:Es.
+        - pose proof (Wr_empty_splits _ (drop_stale l (cursor (re s) + lenN data)) Hw1 Hn eq_refl) as Hl.
+          unfold dg_resume_size, dg_resume_chunks in Ec. rewrite W1 in Ec.
+          destruct (0 <? low (re s)) eqn:E0; [|lia]. destruct (lenN (drop_stale l (cursor (re s) + lenN data)) <? lowc (re s)) eqn:E1; [|lia].
+          cbn in Ec. discriminate Ec.
+        - unfold dg_resume_size in Ec. rewrite W1 in Ec. destruct (0 <? low (re s)) eqn:E0; [cbn in Ec; discriminate Ec|lia]. }
+      destruct (C Hne) as (C1 & C2). auto.
   Qed.
 End Progress.
